@@ -333,6 +333,16 @@ def structural_equality(ctx, rid, core):
             # another way of writing the walk (`let Some(b) = other.get(key) else { return Ok(false) }`): positively wrong is only an
             # equality that goes through the ordering or a printed form, that never calls equals on the members, or that has no size test
             calls_ = {x["name"] for x in H.walk(body_r) if H.kind(x) == "MethodCall"}
+            # the size test is `!=`: any one-sided comparison of the two sizes lets a record equal a proper extension of itself
+            for x in H.walk(body_r):
+                if H.kind(x) == "Binary" and x["op"] in ("Lt", "Gt", "Le", "Ge"):
+                    sides = [H.strip(x["l"]), H.strip(x["r"])]
+                    if all(H.kind(y) == "MethodCall" and y["name"] == "len" for y in sides):
+                        v_rec = False
+            # a key that is absent on the other side makes the records unequal: the looked-up value is never defaulted
+            for x in H.walk(body_r):
+                if H.kind(x) == "MethodCall" and x["name"] in ("unwrap_or", "unwrap_or_default", "unwrap_or_else") and any(H.kind(y) == "MethodCall" and y["name"] == "get" for y in H.walk(x["recv"])):
+                    v_rec = False
             if calls_ & {"compare", "partial_cmp", "stringify", "stringify_internal", "to_string"} or "equals" not in calls_ or "len" not in calls_ or "get" not in calls_ and "contains_key" not in calls_:
                 v_rec = False
         ctx.inst(rid, "equals#Record", v_rec, "equals on records: exact length test, every key of the left looked up in the right, missing/unequal -> false (key order ignored): %s/%s" % (ok, some_ok), H.loc(EQ[key_r][1]["body"]))
